@@ -27,7 +27,10 @@
 #define SIZE (W1 + W2 + W3)
 #define STORE (OFF + SIZE + 1)         /* one unrelated byte after the view, then the NUL */
 struct __attribute__((packed)) by_t { struct vm_hdr h; unsigned long length; char data[STORE + 1]; };      /* packed: exact object size, no tail padding */
-#ifdef SW          /* concatenation instance: two copies of the string joined by a separator of SW bytes */
+#define WSUM(k) (((k) >= 1 ? W1 : 0) + ((k) >= 2 ? W2 : 0) + ((k) >= 3 ? W3 : 0))      /* bytes of the first k characters */
+#ifdef SUB_S       /* substring instance: characters SUB_S .. SUB_E-1 */
+#define NEWSIZE (WSUM(SUB_E) - WSUM(SUB_S))
+#elif defined(SW)  /* concatenation instance: two copies of the string joined by a separator of SW bytes */
 #define NEWSIZE (2 * SIZE + SW)
 #else
 #define NEWSIZE (SIZE - (POS == 0 ? W1 : POS == 1 ? W2 : W3) + NW)
